@@ -21,13 +21,18 @@ KIND_RE = [
     ("sourceAttr", r"unexpected attribute\. Only `doc` attribute is allowed"),
     ("attrShape", r"unexpected token in attribute|expected attribute arguments in parentheses|expected `\(`"),
     ("emptyLattice", r"empty lattice is not allowed"),
+    ("aggBoundArg", r"aggregated variable `[^`]*` must be an argument of the aggregated relation"),      # fix 5862f99 (was FM5)
+    ("sigName", r"the identifiers of struct and impl must match"),                                       # fix dfbe0be (was FM6)
+    ("sigGenerics", r"the generic parameters of struct \(.*\) and impl \(.*\) must match"),
+    ("emptyDisj", r"empty disjunction"),                                                                 # fix 361e42e (was FM4)
     ("unexpectedToken", r"^unexpected token$"),
     ("lex", r"^lex: "),
 ]
+# former panic sites (FM5, FM6, FM7: all fixed). The model never answers `panic`, so any of these is a violation; the names only make the report readable.
 PANIC_RE = [
-    ("panicAggBound", r"called `Option::unwrap\(\)` on a `None` value"),
-    ("panicSigName", r"The identifiers of struct and impl must match"),
-    ("panicSigGenerics", r"The generic parameters of struct"),
+    ("unwrapNone", r"called `Option::unwrap\(\)` on a `None` value"),
+    ("assertSigName", r"The identifiers of struct and impl must match"),
+    ("assertSigGenerics", r"The generic parameters of struct"),
     ("panicFlatten", r"Punctuated::push_punct: cannot push punctuation"),
 ]
 
